@@ -15,6 +15,7 @@ import LlgVerif.Spec.Cfg
 import LlgVerif.Model.Numeric
 import LlgVerif.Model.Inline
 import LlgVerif.Spec.Json
+import LlgVerif.Model.FloatRange
 open LlgVerif Drv
 
 def wordsOf (l : List Nat) : List Word := l.map (fun n => BitVec.ofNat 32 n)
@@ -530,6 +531,19 @@ def handleNum (args : List String) : String :=
     match parseOptInt? l, parseOptInt? r with
     | some l, some r =>
       match rxIntRange l r with
+      | .ok p => "ok " ++ p.s
+      | .error _ => "err"
+    | _, _ => "bad-op"
+  | ["lexi", kind, a, b, ai, bi] =>
+    -- fraction-digit helpers: kind 0 = lexi_x_to_9, 1 = lexi_0_to_x, 2 = lexi_range; digits or "-"
+    let dig := fun (x : String) => if x = "-" then some [] else x.toList.mapM (fun c => if c.isDigit then some (c.toNat - 48) else none)
+    match dig a, dig b with
+    | some a, some b =>
+      let r : Except Unit PR := match kind with
+        | "0" => .ok (lexiXTo9 a (ai = "1"))
+        | "1" => lexi0ToX a (ai = "1")
+        | _ => lexiRange a b (ai = "1") (bi = "1")
+      match r with
       | .ok p => "ok " ++ p.s
       | .error _ => "err"
     | _, _ => "bad-op"
